@@ -22,6 +22,7 @@ PROPS = {
         "outside": ["rendered message text", "minimum+1 overflow for n_times(usize::MAX).then()"],
     },
     "C01": {
+        "mirsym": ["eval_dyn"],
         "bounds": {"quick": "scan: K=3 patterns, all 27 verdict tables {reject,accept,error}^3, arbitrary 64-bit prior counts and ordered index; one step (state = counters, arbitrary => histories of any length); matcher downcast: all u8 x u8",
                    "thorough": "adds K=4 and the eval_dyn step with a 1-entry method table"},
         "assumptions": COMMON_KANI + ["predicates are modelled as an arbitrary verdict per pattern (the link matcher closure = predicate is C06)",
@@ -56,5 +57,11 @@ PROPS = {
         "bounds": {"quick": "induce_panic / handle_error / Continuation::report from an arbitrary state with any error value; teardown for all inputs (see C09)"},
         "assumptions": COMMON_MIR + ["the Mutex is an atomic block (its internals are trusted)"],
         "outside": ["errors racing from several threads", "message text", "the no_std `panicked` flag"],
+    },
+    "C07": {
+        "mirsym": ["eval_dyn"],
+        "bounds": {"quick": "the complete decision table of eval_dyn: method table M=0..2 entries with symbolic keys and symbolic called type id x has_default_impl x partial_by_default x fallback mode x scan result {none, pattern 0, pattern 1, error} x responder available; one call from an arbitrary state"},
+        "assumptions": COMMON_MIR + ["match_call_pattern / next_responder are replaced by their contracts, which the Kani units c01_scan_first_match, c04_in_order_step, c02_next_responder_step decide on the compiled code"],
+        "outside": ["the generated match arms that act on Unmock / CallDefaultImpl (C15/C16)", "argument values (the scan result is symbolic instead)"],
     },
 }
